@@ -220,6 +220,25 @@ def explain(outs, o, spans, data, failed, raw=False):
     return expl
 
 
+CLOSER = {"lc": " }", "lp": " )", "lb": " ]"}
+
+
+def completion(tokens):
+    """The most plausible way to go on after a rejected sequence: what the last token would need if it were
+    accepted (a block after an identifier, a semicolon after an argument), then a closer for every construct
+    still open.  A parser that wrongly swallows the offending token then reaches the end of a well-formed
+    script instead of a truncated one (reject-sticks, C01; position independent of what follows, C18)."""
+    stack = []
+    for k, _ in tokens:
+        if k in CLOSER:
+            stack.append(k)
+        elif k in ("rc", "rp", "rb") and stack:
+            stack.pop()
+    last = tokens[-1][0] if tokens else "semi"
+    head = " { }" if last == "id" else (" ;" if last in ("str", "num", "tag", "ml", "rb", "rp") else "")
+    return head + "".join(CLOSER[k] for k in reversed(stack))
+
+
 def init_worker(ctx):
     global _ctx
     _ctx = ctx
@@ -259,6 +278,8 @@ def work(lines):
         sufs = [""]
         if nrunning == 0 and all(q[1] in ("rej", "rejlate") for q in outs):
             sufs = [""] + [suffixes[(h + k) % len(suffixes)] for k in range(ctx["nsuf"])]
+            if ctx["nsuf"]:
+                sufs.append(completion(tokens))
         base = {}
         for lay in lays:
             for suf in sufs:
